@@ -49,7 +49,7 @@ Section Server.
   Definition encoder_data (st : dstate) (dev : device) (p : phyout) (rx : rxpacket) (created now : N) : dstate * list out :=
     match encode (downlink_frame dev p 0) with   (* the trial MarshalBinary: no counter for a frame that cannot be sent *)
     | Ok _ =>
-    match l_next_fdn st with
+    match l_next_fdn st (d_nwkskey dev) with
     | (st1, Some c) =>
       match encode_message (d_nwkskey dev) (d_appskey dev) (downlink_frame dev p c) with
       | Ok buf =>
@@ -93,7 +93,7 @@ Section Server.
     if d_fup dev <=? fcnt f then
       let dev1 := set_counters dev ((fcnt f + 1) mod 65536) (d_fdn dev) kw in
       (* the store repeats the comparison together with the write *)
-      match l_advance_fup st (fcnt f) ((fcnt f + 1) mod 65536) kw with
+      match l_advance_fup st (d_nwkskey dev) (fcnt f) ((fcnt f + 1) mod 65536) kw with
       | (st1, None) => Some (st1, dev1)
       | (_, Some SNotFound) => if d_relaxed dev then Some (st, dev1) else None
       | (_, Some _) => None
@@ -178,7 +178,9 @@ Section Server.
           | (st2, None) =>
             let ja_ := {| ja_appnonce := appnonce; ja_netid := N.land (cfg_netid cfg) 4294967295;
                           ja_devaddr := devaddr_of_u32 addr; ja_rx1droffset := 0; ja_rx2dr := 5; ja_rxdelay := 1 |} in
-            send_for (l_set_join_accept st2 ja_) dev1 rx 0 0
+            (* FrameContext.Device was set before the keys were replaced: the scheduler and the encoder work with the
+               device as it was read (matters only if another handler has overwritten the buffer entry meanwhile) *)
+            send_for (l_set_join_accept st2 ja_) dev rx 0 0
           end
         end
     end.
